@@ -24,7 +24,8 @@ RULE = ("data of size 1..300 from six families (floats over 12 decades with both
         "view, field of a record array, byte-swapped array). Every case "
         "runs the C engine and the Python engine. Non-trivial: >=2 non-empty bins and (a tie among "
         "counted data, or a datum exactly on a bin edge, or a limit that excludes data, or an empty "
-        "interior bin). Distinct = distinct case JSON.")
+        "interior bin). Distinct = distinct case JSON."
+        " Data are handed over as ndarray, list, strided view, negative-stride view, record-array field or byte-swapped array; a Binner is histogrammed again with a limit dropped / other binning and compared with a fresh Binner.")
 ASSUMPTIONS = [
     "data are finite, |x| <= 1e12 (integers < 2**53): the conversion to float64 done by Binner is exact or "
     "the float64 image is taken as 'the data'",
